@@ -219,6 +219,10 @@ def run(ctx):
                 ctx.check(f.path == create.path and what == "extern push", "dense-ids", "table-mutation|%s|%s" % (f.short(), what), where,
                           "order table length changes only by the push in create_order", "order table mutated as a whole by `%s` in %s" % (what, f.short()))
 
+    # ------------------------------------------------------------ the updated record is stored back to the order table
+    from .c02 import writeback
+    writeback(ctx, m)
+
     # ------------------------------------------------------------ no-op clauses
     noop_slice(ctx, m, "place_order", "New", True)
     noop_slice(ctx, m, "cancel_order", "Active", True)
